@@ -13,6 +13,12 @@ from paths import CORPUS, VERIF
 SHIPPED = ['Padauk.ttf', 'Scheherazadegr.ttf', 'charis_r_gr.ttf', 'Annapurnarc2.ttf', 'Awami_test.ttf', 'general.ttf', 'PigLatinBenchmark_v3.ttf',
            'MagyarLinLibertineG.ttf', 'AwamiNastaliq-Regular.ttf', 'Awami_compressed_test.ttf']
 
+ILLFORMED = {
+    1: [[0xC0, 0x80], [0xC1, 0xBF], [0xE0, 0x80, 0x80], [0xED, 0xA0, 0x80], [0xF4, 0x90, 0x80, 0x80], [0xF5, 0x80, 0x80, 0x80], [0xF8, 0x90, 0x80, 0x80], [0xF9, 0x90, 0x80, 0x80],
+        [0xFC, 0x84, 0x80, 0x80], [0xFF], [0xFE], [0x80], [0xBF, 0xBF], [0xE2, 0x82], [0xF0, 0x9F, 0x98], [0xC3]],
+    2: [[0xD800], [0xDC00], [0xDBFF, 0x41], [0xD800, 0xD800, 0xDC00], [0xDFFF, 0xD800]],
+    4: [[0x110000], [0xD800], [0xDFFF], [0xFFFFFFFF], [0x7FFFFFFF]],
+}
 NONTRIV = {
     'C02': lambda r: r.get('fired', 0) > 0 or not r.get('seg'),
     'C03': lambda r: r.get('seg') and (r['st']['n'] != r['st']['nc'] or r['st']['reord'] or r.get('fired', 0) > 0),
@@ -148,7 +154,7 @@ def worker(ctx, prop):
                  sample=dict(kind=case['kind'], font=case.get('font', 'synthesised'), text=case['text'], dir=case.get('dir'), enc=case.get('enc'), slots=st_.get('n'), rules_fired=r.get('fired')) if n else None,
                  loaded=bool(r.get('face')), rejected=not r.get('face'), seg=bool(r.get('seg')), seg_null=bool(r.get('face') and not r.get('seg')),
                  rule_fired=r.get('fired', 0) > 0, attached=st_.get('att', 0) > 0, attach_depth2=st_.get('depth', 0) >= 2, reordered=bool(st_.get('reord')),
-                 length_changed=st_.get('n') != st_.get('nc'), assoc_nontrivial=bool(st_.get('assoc')), late_assoc=r.get('late', 0) > 0,
+                 length_changed=st_.get('n') != st_.get('nc'), illformed_text=any(isinstance(c, (list, tuple)) for c in case['text']), assoc_nontrivial=bool(st_.get('assoc')), late_assoc=r.get('late', 0) > 0,
                  long_text=len(case['text']) >= 512, loop_half_bound=any(p[0] * 2 > p[1] for p in r.get('passes', [])), growth_cap=st_.get('n', 0) > 32 * max(1, st_.get('nc', 1)))
 
     def make_wild(deco):
@@ -188,7 +194,12 @@ def worker(ctx, prop):
             if prop == 'C02' and txt and data.draw(st.integers(0, ctx.n(60, 12))) == 0:
                 # work-bound class: long texts (the H1 bound scales with the slot count; the harness checks it per pass)
                 txt = (txt * (ctx.n(512, 4096) // len(txt) + 1))[:ctx.n(512, 4096)]
-            case = dict(kind='shipped', font=f, text=txt, dir=data.draw(st.integers(0, 7)), enc=data.draw(st.sampled_from([1, 2, 4])),
+            enc = data.draw(st.sampled_from([1, 2, 4]))
+            if data.draw(st.integers(0, 3)) == 0:
+                # ill-formed code-unit sequences (kept raw): every one must become exactly one U+FFFD char-info (C05) and be shaped safely (C02)
+                for _ in range(data.draw(st.integers(1, 3))):
+                    txt.insert(data.draw(st.integers(0, len(txt))), ['raw', list(data.draw(st.sampled_from(ILLFORMED[enc])))])
+            case = dict(kind='shipped', font=f, text=txt, dir=data.draw(st.integers(0, 7)), enc=enc,
                         ppm=data.draw(st.sampled_from([0.0, 0.0, 14.0, -15.0])), check_gid=True)
             try:
                 r, other = judge(drv, case, prop, ctx)
@@ -200,7 +211,7 @@ def worker(ctx, prop):
 
     n = ctx.n(4000, 120000) // ctx.nworkers + 1
     rp = lambda c: replay_case(prop, c)
-    ctx.run_hypothesis(make_wild, n, replay_fn=rp)
+    ctx.run_hypothesis(make_wild, n, replay_fn=rp, share=0.5)
     ctx.run_hypothesis(make_shipped, n, replay_fn=rp)
     try:
         drv.stop()
@@ -332,7 +343,7 @@ def main(prop, modname, tier, seed, workers, rule, assumptions, fuzz_ignore=()):
             fm['violations'].append(dict(label=v['label'], detail=v['detail'][-600:], replay=v['replay']))
         else:
             fm['other'][v['prop'] + ':' + v['label']] = fm['other'].get(v['prop'] + ':' + v['label'], 0) + 1
-    pm = fw.run_workers(modname, prop, tier, seed, workers, 40 if tier == 'quick' else 600)
+    pm = fw.run_workers(modname, prop, tier, seed, workers, 100 if tier == 'quick' else 900)
     mm = fw.merge([dict(ctx.rec.dump(), error=None), dict(sm, nontrivial=[], error=None), dict(fm, nontrivial=sorted(fm['nontrivial']), error=None), dict(pm, nontrivial=sorted(pm['nontrivial']), error=None)])
     mm['nontrivial'] = len(mm['nontrivial']) + sm.get('nt_sweep', 0)     # sweep cases are distinct (offset, value, text) triples by construction
     mm['errors'] = pm['errors']
